@@ -108,6 +108,10 @@ class Explorer:
         self.shared = {c: _shared_offsets(c) for c in body}
         self.gen_code = ps.process_iter.__code__
         self.test_lines, self.pop_lines = _drain_lines(self.gen_code)
+        self.publish_lines = {ins.positions.lineno for ins in dis.get_instructions(self.gen_code)
+                              if ins.opname == "STORE_GLOBAL" and ins.argval == "_pmap" and ins.positions}
+        if not self.publish_lines:
+            raise Drift("process_iter: no `_pmap = ...` statement found")
         init = ps.Process._init.__code__
         self.init_code = init
         self.init_lines = set()
@@ -137,6 +141,8 @@ class Explorer:
         return self._local_init
 
     def _local_body(self, frame, event, arg):
+        if frame.f_code is self.gen_code:
+            self._fine_event(frame, event, arg)
         if self.free:
             return self._local_body
         if event == "line":
@@ -155,6 +161,48 @@ class Explorer:
                 if ln in self.test_lines or ln in self.pop_lines:
                     self.glog.append(("drain", self.tids.get(threading.get_ident()), "test" if ln in self.test_lines else "pop"))
         return self._local_body
+
+    def _fine_event(self, frame, event, arg):
+        """what THIS generator frame reads from the shared world, statement by statement (Lean: Model/C04Fine.lean):
+        `_pmap` at the copy, the listing, the PIDs handed out by `_pids_reused.pop()`, NoSuchProcess at `add(pid)` /
+        `as_dict`, and what it yields and finally publishes — read off the frame's own locals"""
+        if event == "opcode" or self.fine is None:
+            return
+        rec = self.fine.get(id(frame))
+        if rec is None:
+            rec = self.fine[id(frame)] = {"frame": frame, "tid": self.tids.get(threading.get_ident()), "copy": None,
+                                          "listing": None, "popped": [], "pop_err": False, "ls": None, "nsp": [],
+                                          "yields": [], "pmap": None, "pending": False, "keep": [], "exc": None,
+                                          "order": len(self.fine)}
+        loc = frame.f_locals
+        if event == "line":
+            if rec["pending"]:                       # the `pop()` statement completed: its value is in `pid`
+                rec["popped"].append(int(loc["pid"]))
+            rec["pending"] = frame.f_lineno in self.pop_lines
+            if rec["copy"] is None and "pmap" in loc:
+                rec["copy"] = [(int(k), id(v)) for k, v in loc["pmap"].items()]
+                rec["keep"].extend(loc["pmap"].values())
+            if rec["listing"] is None and "a" in loc:
+                rec["listing"] = sorted(int(x) for x in loc["a"])
+            if frame.f_lineno in self.publish_lines and "pmap" in loc:
+                # `_pmap = pmap` is about to run: this is the value published (afterwards the local and the global are
+                # the SAME dict, which cache_clear() of another thread may empty)
+                rec["pmap"] = [(int(k), id(v)) for k, v in loc["pmap"].items()]
+            if rec["ls"] is None and "ls" in loc:
+                rec["ls"] = [(int(k), None if v is None else id(v)) for k, v in loc["ls"]]
+        elif event == "exception":
+            name = arg[0].__name__
+            if name == "KeyError" and frame.f_lineno in self.pop_lines:
+                rec["pop_err"] = True
+                rec["pending"] = False
+            elif name == "NoSuchProcess":
+                rec["nsp"].append((int(loc["pid"]), loc.get("proc") is None))
+            elif name not in ("StopIteration", "GeneratorExit"):
+                rec["exc"] = name
+        elif event == "return":
+            if arg is not None:                      # a `yield`
+                rec["yields"].append((int(arg.pid), id(arg)))
+                rec["keep"].append(arg)
 
     def _point(self, kind):
         tid = self.tids.get(threading.get_ident())
@@ -255,6 +303,7 @@ class Explorer:
         self.glog = []
         self.tables = []
         self.objs = {}
+        self.fine = {}
         for op in prog["setup"]:
             impl.kev(op["ev"])
         problem = None
@@ -310,7 +359,11 @@ class Explorer:
                     final.append([(int(p.pid), impl._canon(p)) for p in ps.process_iter()])
                 except Exception as e:  # noqa: BLE001
                     final.append({"exc": type(e).__name__})
-        return {"problem": problem, "pre": pre, "logs": {str(t): self.log.get(t, []) for t in range(nt)},
+        fine = []
+        for rec in sorted(self.fine.values(), key=lambda r: r["order"]):
+            fine.append({k: rec[k] for k in ("tid", "copy", "listing", "popped", "pop_err", "ls", "nsp", "yields", "pmap", "exc")})
+        self.fine = {}
+        return {"problem": problem, "pre": pre, "logs": {str(t): self.log.get(t, []) for t in range(nt)}, "fine": fine,
                 "glog": list(self.glog), "tables": [dict(t) for t in self.tables], "final": final,
                 "flagged_before_final": flagged_before_final,
                 "points": {str(t): dict(v) for t, v in self.npoints.items()},
@@ -569,6 +622,64 @@ def compare_drain(ctx, items):
     return diffs, len(lines)
 
 
+FINE_BASE = 1000000
+
+
+def fine_line(rec):
+    """→ (driver line, what the real generator did) for one recorded generator run, or None when the run ended in an
+    exception other than those the fine model knows"""
+    if rec["copy"] is None or rec["exc"] is not None:
+        return None
+    ref = {}
+    for pid, oid in rec["copy"]:
+        ref.setdefault(oid, len(ref))
+
+    def r(pid, oid):
+        return ref[oid] if oid in ref else FINE_BASE + pid
+    listing = rec["listing"] or []
+    failed_new = {pid for pid, new in rec["nsp"] if new}
+    ls = rec["ls"] or []
+    touches = [{"create": None if (oid is None and pid in failed_new) else 0, "fill": True} for pid, oid in ls]
+    line = {"op": "fine", "copy": [{"pid": pid, "ref": ref[oid]} for pid, oid in rec["copy"]], "listing": listing,
+            "popped": rec["popped"], "pop_err": rec["pop_err"], "invalid": False, "has_attrs": False, "base": FINE_BASE,
+            "touches": touches}
+    real = {"todo": [[pid, None if oid is None else r(pid, oid)] for pid, oid in ls],
+            "yields": [[pid, r(pid, oid)] for pid, oid in rec["yields"]],
+            "published": None if rec["ls"] is None else sorted([pid, r(pid, oid)] for pid, oid in (rec["pmap"] or [])),
+            "exc": None}
+    return line, real
+
+
+def compare_fine(ctx, items):
+    """items: (tag, run). Every generator run of the real threads — whatever the schedule did between its statements — is
+    put through the statement-granularity thread model with the values it really read (theorems C04_fine_*)."""
+    lines, reals, tags = [], [], []
+    for tag, run in items:
+        for rec in run.get("fine", []):
+            lr = fine_line(rec)
+            if lr is None:
+                continue
+            lines.append(lr[0])
+            reals.append(lr[1])
+            tags.append(tag)
+    outs = ctx.driver().batch(lines) if lines else []
+    diffs = []
+    stats = {"popped": 0, "new_pid_vanished": 0, "stale_copy": 0}
+    for tag, line, real, m in zip(tags, lines, reals, outs):
+        stats["popped"] += bool(line["popped"])
+        stats["new_pid_vanished"] += any(t["create"] is None for t in line["touches"])
+        stats["stale_copy"] += bool({c["pid"] for c in line["copy"]} - set(line["listing"]))
+        if "bad" in m:
+            diffs.append((tag, line, real, m))
+            continue
+        mo = dict(m["model"])
+        if mo.get("published") is not None:
+            mo["published"] = sorted(mo["published"])
+        if mo != real:
+            diffs.append((tag, line, real, mo))
+    return diffs, len(lines), stats
+
+
 # ------------------------------------------------------------------------------ entry points
 
 
@@ -584,8 +695,19 @@ def explore(ctx, res, impl, full=False, budget=60):
     total = 0
     model_batch = []
     drain_batch = []
+    fine_batch = []
 
     def flush():
+        fdiffs, nlf, fstats = compare_fine(ctx, fine_batch)
+        res.count("preempt_fine_generator_runs", nlf)
+        for k, v in fstats.items():
+            res.count("preempt_fine:" + k, v)
+        res.extra["driver_lines"] = res.extra.get("driver_lines", 0) + nlf
+        for (pname, gran, plan), line, real, mo in fdiffs[:2]:
+            res.disagree("model", {"preempt": {"program": pname, "gran": gran, "plan": plan}, "fine": line}, real, mo, None,
+                         note="a generator run of a real thread (statement granularity): to-do list / yields / published map "
+                              "differ from the Lean thread model fineRun fed with the values the thread really read")
+        del fine_batch[:]
         diffs, nl = compare_with_model(ctx, model_batch)
         res.count("preempt_model_histories", len(model_batch))
         res.extra["driver_lines"] = res.extra.get("driver_lines", 0) + nl
@@ -647,6 +769,8 @@ def explore(ctx, res, impl, full=False, budget=60):
                         res.disagree("spec", inp, {"logs": run.get("logs"), "final": run.get("final")}, None,
                                      {"clause": why},
                                      note="bounded-pre-emption exploration of process_iter() (oracle from the statement): " + why)
+                    if not run.get("problem"):
+                        fine_batch.append(((pname, explorer.gran, plan), {"fine": run.get("fine", [])}))
                     if pname == "flagged2" and explorer.gran == "line" and not run.get("problem"):
                         drain_batch.append(((pname, plan), list(prog["flag"]),
                                             {"glog": [e for e in run["glog"] if e[0] == "drain"], "logs": run["logs"]}))
@@ -654,7 +778,7 @@ def explore(ctx, res, impl, full=False, budget=60):
                         h, outs = model_history(prog, run)
                         if h is not None:
                             model_batch.append(((pname, plan), h, outs))
-                    if len(model_batch) + len(drain_batch) >= 1500:
+                    if len(model_batch) + len(drain_batch) >= 1500 or len(fine_batch) >= 1500:
                         flush()
         flush()
         res.extra["preempt_schedules"] = res.extra.get("preempt_schedules", 0) + total
@@ -683,6 +807,9 @@ def replay(ctx, rp, res):
         for why, fid in judge(prog, run):
             if fid is None or fid not in kids:
                 return True
+        if rp["input"].get("fine"):
+            diffs, _, _ = compare_fine(ctx, [((p["program"], p.get("gran", "line"), plan), run)])
+            return bool(diffs)
         if rp["input"].get("history"):
             h, outs = model_history(prog, run)
             if h is not None:
